@@ -15,6 +15,7 @@ import PdshVerif.Opt.Spec
 import PdshVerif.Opt.Lemmas
 import PdshVerif.Opt.Accept
 import PdshVerif.Opt.Table
+import PdshVerif.Opt.Command
 
 namespace PdshVerif.C18
 open PdshVerif PdshVerif.Opt
@@ -908,6 +909,180 @@ example : ∃ c, effective Fixes.none d0 .dsh [("FANOUT".toList, "8".toList)]
     (render [⟨'N', none⟩, ⟨'f', some "3".toList⟩, ⟨'R', some "exec".toList⟩, ⟨'u', some "7".toList⟩,
              ⟨'w', some "h".toList⟩] [ "cmd".toList ]) = .ok c ∧ c.fanout = 3 ∧ c.commandTimeout = 7 := by
   refine ⟨_, rfl, ?_⟩
+  decide
+
+
+/-! ## the whole of main: the remote command, the prompt loop, what is started -/
+
+theorem mainPlan_ok_inv {fx : Fixes} {d : Defaults} {p : Pers} {env : Env} {argv : List Str} {c : Cfg} {nx : Next}
+    (h : mainPlan fx d p env argv = .ok (c, nx)) :
+    effective fx d p env argv = .ok c ∧ nx = plan p c (getopt (fullString d p) argv).2 := by
+  unfold mainPlan at h
+  cases he : effective fx d p env argv with
+  | exit n => simp [he] at h
+  | ok c' =>
+    simp only [he, Except.ok.injEq, Prod.mk.injEq] at h
+    obtain ⟨rfl, rfl⟩ := h
+    exact ⟨rfl, rfl⟩
+
+/-- REFUSED MEANS NOTHING IS STARTED: main's result is "exit n" exactly when opt_env / opt_args / opt_verify
+    refused, and then there is no `Next` — neither dsh() nor the prompt loop is entered, nothing is contacted -/
+theorem refused_nothing_started (fx : Fixes) (d : Defaults) (p : Pers) (env : Env) (argv : List Str) (n : Nat) :
+    mainPlan fx d p env argv = .error n ↔ effective fx d p env argv = .exit n := by
+  unfold mainPlan
+  cases effective fx d p env argv <;> simp
+
+/-- THE REMOTE COMMAND (every variant, every environment, every command line): when main starts a DSH run, the
+    command it runs is exactly the words that remain after the options, in order, joined by single blanks — no
+    option, no option argument and no environment value is part of it — and there is at least one such word -/
+theorem command_is_operands {fx : Fixes} {d : Defaults} {p : Pers} {env : Env} {argv : List Str} {c : Cfg} {cmd : Str}
+    (h : mainPlan fx d p env argv = .ok (c, .run (some cmd))) :
+    p.isPcp = false ∧ (getopt (fullString d p) argv).2 ≠ [] ∧ cmd = joinWords (getopt (fullString d p) argv).2 := by
+  obtain ⟨_, hn⟩ := mainPlan_ok_inv h
+  unfold plan at hn
+  split at hn
+  · cases hn
+  · split at hn
+    · cases hn
+    · split at hn
+      · cases hn
+      · split at hn
+        · cases hn
+        · rename_i hp
+          split at hn
+          · rename_i cmd' hc
+            simp only [Next.run.injEq, Option.some.injEq] at hn
+            subst hn
+            obtain ⟨h1, h2⟩ := assembleCmd_some hc
+            exact ⟨by simpa using hp, h1, h2⟩
+          · cases hn
+
+/-- ... so the words of the command can be read back verbatim (blank-free words: what C09's per-host argument
+    vector is built from) -/
+theorem command_words_verbatim {fx : Fixes} {d : Defaults} {p : Pers} {env : Env} {argv : List Str} {c : Cfg}
+    {cmd : Str} (h : mainPlan fx d p env argv = .ok (c, .run (some cmd)))
+    (hnb : ∀ w ∈ (getopt (fullString d p) argv).2, ' ' ∉ w) :
+    splitBlank cmd = (getopt (fullString d p) argv).2 := by
+  obtain ⟨_, hne, rfl⟩ := command_is_operands h
+  exact splitBlank_joinWords _ hne hnb
+
+/-- ... and it does not depend on how the options are SPELLED, nor on which options there are: for every way of
+    writing the option sequence `opts` in front of the operands `ops` (attached / detached arguments, clusters,
+    `--` or not), the command is `ops` joined by blanks; words after the first operand are never taken for
+    options (`pdsh -w h ls -l`: `-l` belongs to the command) -/
+theorem command_any_spelling {fx : Fixes} {d : Defaults} {p : Pers} {env : Env} {opts : List OptW} {ops ws : List Str}
+    {c : Cfg} {cmd : Str} (hs : Spelled (fullString d p) opts ops ws)
+    (h : mainPlan fx d p env ws = .ok (c, .run (some cmd))) : cmd = joinWords ops := by
+  obtain ⟨_, _, hc⟩ := command_is_operands h
+  rw [getopt_spelled _ hs] at hc
+  exact hc
+
+/-- THE PROMPT LOOP: an accepted pdsh (not pdcp) command line that is not a listing reads its commands from stdin
+    exactly when no word is left after the options ("no command ⇒ interactive") -/
+theorem interactive_iff_no_command {fx : Fixes} {d : Defaults} {p : Pers} {env : Env} {argv : List Str} {c : Cfg}
+    (h : effective fx d p env argv = .ok c) (hp : p.isPcp = false) (hq : c.infoOnly = false) :
+    mainPlan fx d p env argv = .ok (c, .interactive) ↔ (getopt (fullString d p) argv).2 = [] := by
+  unfold mainPlan plan
+  simp only [h, hp, hq, Bool.false_and, Bool.false_eq_true, if_false]
+  cases hc : assembleCmd (getopt (fullString d p) argv).2 with
+  | none => simp [assembleCmd_none.mp hc]
+  | some cmd =>
+    have := (assembleCmd_some hc).1
+    simp [this]
+
+/-- what main starts is a function of the accepted configuration and the operands only -/
+theorem started_run_or_loop {fx : Fixes} {d : Defaults} {p : Pers} {env : Env} {argv : List Str} {c : Cfg} {nx : Next}
+    (h : mainPlan fx d p env argv = .ok (c, nx)) (hq : c.infoOnly = false) (hz : c.pcpServer = false)
+    (hZ : c.pcpClient = false) : (∃ cmd, nx = .run cmd) ∨ (nx = .interactive ∧ p.isPcp = false) := by
+  obtain ⟨_, hn⟩ := mainPlan_ok_inv h
+  subst hn
+  unfold plan
+  simp only [hq, hz, hZ, Bool.and_false, Bool.false_eq_true, if_false]
+  cases hp : p.isPcp with
+  | true => simp
+  | false =>
+    simp only [Bool.false_eq_true, if_false]
+    cases assembleCmd (getopt (fullString d p) argv).2 <;> simp
+
+/-- NEVER HANGS, the whole of main (repaired D4): whenever main goes on to dsh() or to the prompt loop — from any
+    environment and command line, for pdsh, pdcp and rpdcp — the fanout is >= 1, so the dispatcher's wait
+    `fanout == threadcount` is never entered with nobody to signal it -/
+theorem never_hangs_whole {fx : Fixes} {d : Defaults} {p : Pers} {env : Env} {argv : List Str} {c : Cfg} {nx : Next}
+    (hd4 : fx.d4 = true) (h : mainPlan fx d p env argv = .ok (c, nx))
+    (hplain : c.pcpServer = false ∧ c.pcpClient = false) : c.fanout ≥ 1 ∧ runTerminates c = true :=
+  never_hangs hd4 (mainPlan_ok_inv h).1 hplain
+
+/-! ## the personalities: pdsh / pdcp / rpdcp have different option sets -/
+
+/-- the generated option strings: `-e` (remote pdcp path) exists for pdcp / rpdcp only, `-S` and `-k` for pdsh only;
+    the valued settings f t u l R M exist for all three -/
+theorem personality_letters :
+    optKind (optstring .dsh) 'e' = none ∧ optKind (optstring .pdcp) 'e' = some true ∧
+    optKind (optstring .rpdcp) 'e' = some true ∧
+    optKind (optstring .dsh) 'S' = some false ∧ optKind (optstring .dsh) 'k' = some false ∧
+    optKind (optstring .pdcp) 'S' = none ∧ optKind (optstring .pdcp) 'k' = none ∧
+    optKind (optstring .rpdcp) 'S' = none ∧ optKind (optstring .rpdcp) 'k' = none ∧
+    (∀ p : Pers, ∀ ch ∈ ['f', 't', 'u', 'l', 'R', 'M', 'w', 'x'], optKind (optstring p) ch = some true) := by
+  refine ⟨by decide, by decide, by decide, by decide, by decide, by decide, by decide, by decide, by decide, ?_⟩
+  intro p; cases p <;> decide
+
+/-- PDSH HAS NO REMOTE-PATH SETTING: under the pdsh personality neither PDSH_REMOTE_PDCP_PATH (ignored by opt_env)
+    nor `-e` (not in its option string: such a command line is refused) can change the remote program path: an
+    accepted run has the default.  (`hm`: no module registers an option `-e`.) -/
+theorem dsh_remote_path_default {fx : Fixes} {d : Defaults} {env : Env} {argv : List Str} {c : Cfg}
+    (hm : optKind (fullString d .dsh) 'e' = none) (h : effective fx d .dsh env argv = .ok c) :
+    c.remotePath = d.progPath := by
+  obtain ⟨_, _, _, _, _, _, a7⟩ := precedence h
+  rw [a7, lastArg_none_of_unknown _ _ _ hm]
+  simp [pick, Pers.isPcp]
+
+/-- PDCP / RPDCP HAVE NO -S / -k: their option string lacks both letters, so in an accepted copy run both flags
+    are off (a command line that mentions them is refused) — which is why a copy run that was started exits 0
+    (C08.pcp_exit0).  (`hm`: no module registers `-S` / `-k`.) -/
+theorem pcp_no_S_no_k {fx : Fixes} {d : Defaults} {p : Pers} {env : Env} {argv : List Str} {c : Cfg}
+    (hp : p.isPcp = true) (hmS : optKind (fullString d p) 'S' = none) (hmk : optKind (fullString d p) 'k' = none)
+    (h : effective fx d p env argv = .ok c) : c.retRemoteRc = false ∧ c.killOnFail = false := by
+  have hS : ∀ ch, caseOf ch = .flag .S → optKind (fullString d p) ch = none := by
+    intro ch hc
+    have : ch = 'S' := by unfold caseOf at hc; split at hc <;> first | rfl | (simp at hc)
+    rw [this]; exact hmS
+  have hk : ∀ ch, caseOf ch = .flag .k → optKind (fullString d p) ch = none := by
+    intro ch hc
+    have : ch = 'k' := by unfold caseOf at hc; split at hc <;> first | rfl | (simp at hc)
+    rw [this]; exact hmk
+  exact ⟨flag_off_of_unknown h .S (by decide) hS, flag_off_of_unknown h .k (by decide) hk⟩
+
+/-- the shipped build (no module registers options): the hypotheses `hm` above hold -/
+example (d : Defaults) (h : d.modOpts = []) :
+    optKind (fullString d .dsh) 'e' = none ∧ optKind (fullString d .pdcp) 'S' = none ∧
+    optKind (fullString d .rpdcp) 'k' = none := by
+  simp only [fullString, h, List.append_nil]
+  decide
+
+def nextOf : Except Nat (Cfg × Next) → Option Next
+  | .ok (_, n) => some n
+  | .error _ => none
+def exitOf : Except Nat (Cfg × Next) → Option Nat
+  | .ok _ => none
+  | .error n => some n
+def pathOf : Except Nat (Cfg × Next) → Option Str
+  | .ok (c, _) => some c.remotePath
+  | .error _ => none
+
+/-- the statements above are not vacuous: a pdsh command line with a two-word command (the second word looks like
+    an option), one without a command, a copy, and the letters of the other personality refused -/
+theorem main_witnesses :
+    nextOf (mainPlan Fixes.all d0 .dsh [] (words ["-w", "h", "-f", "3", "ls", "-l"])) = some (.run (some "ls -l".toList)) ∧
+    nextOf (mainPlan Fixes.all d0 .dsh [] (words ["-w", "h"])) = some .interactive ∧
+    nextOf (mainPlan Fixes.all d0 .dsh [] (words ["-w", "h", "-q", "ls"])) = some .info ∧
+    nextOf (mainPlan Fixes.all d0 .pdcp [("PDSH_REMOTE_PDCP_PATH".toList, "/x".toList)]
+      (words ["-w", "h", "a", "b"])) = some (.run none) ∧
+    pathOf (mainPlan Fixes.all d0 .pdcp [("PDSH_REMOTE_PDCP_PATH".toList, "/x".toList)]
+      (words ["-w", "h", "a", "b"])) = some "/x".toList ∧
+    pathOf (mainPlan Fixes.all d0 .dsh [("PDSH_REMOTE_PDCP_PATH".toList, "/x".toList)]
+      (words ["-w", "h", "ls"])) = some "/p".toList ∧
+    exitOf (mainPlan Fixes.all d0 .dsh [] (words ["-w", "h", "-e", "/x", "ls"])) = some 1 ∧
+    exitOf (mainPlan Fixes.all d0 .pdcp [] (words ["-w", "h", "-S", "a", "b"])) = some 1 := by
   decide
 
 end PdshVerif.C18
